@@ -147,7 +147,7 @@ def r3_parser(run, F):
     b = F.body("alpha::parser::parse_primary_expression")
     m = None
     for mm in hirq.matches(b["hir"]):
-        if hirq.local_name_of(mm["scrut"]) == "token" and len(mm["arms"]) > 8:
+        if hirq.local_name_of(mm["scrut"]) == "token" and hirq.n_alts(mm) > 8:
             m = mm
     run.require(m is not None, "match token not found in parse_primary_expression")
     rows = []
@@ -285,7 +285,7 @@ def r5_linter(run, F):
     e = F.body("<alpha::common::Expression as alpha::linter::Lintable>::lint")
     m = None
     for mm in hirq.matches(e["hir"]):
-        if len(mm["arms"]) > 10:
+        if hirq.n_alts(mm) > 10:
             m = mm
     run.require(m is not None, "match self not found in Expression::lint")
     for a in m["arms"]:
@@ -316,7 +316,7 @@ def r6_generator(run, F):
     MAX = F.const_value("<alpha::resolved::Expression as alpha::generator::Generatable>::generate::MAX")
     run.ob("R6-RANGES", "MIN=i64::MIN", MIN == -2 ** 63, F.where(g), "sign-extended range must start at i64::MIN (%s)" % MIN)
     run.ob("R6-RANGES", "MAX=u64::MAX", MAX == 2 ** 64 - 1, F.where(g), "zero-extended range must end at u64::MAX (%s)" % MAX)
-    top = [x for x in hirq.matches(g["hir"]) if len(x["arms"]) > 12]
+    top = [x for x in hirq.matches(g["hir"]) if hirq.n_alts(x) > 12]
     run.require(top, "main match of Expression::generate not found")
     sarm = hirq.arm_for(top[0], "Expression::SignedIntegerLiteral")
     run.require(sarm, "SignedIntegerLiteral arm not found in the generator")
